@@ -29,7 +29,8 @@ func Canary() int {
 	formula.VerifResolveHook = func(r *formula.Runner, v formula.Expression, res *interface{}, err *error) func() {
 		return func() { nodes++ }
 	}
-	defer func() { formula.VerifScanHook = nil; formula.VerifResolveHook = nil }()
+	saved := formula.VerifResolveHook
+	defer func() { formula.VerifScanHook = nil; formula.VerifResolveHook = saved }()
 	src, err := formula.ParseSourceCode([]byte("1 + 2"))
 	if err != nil {
 		fmt.Println("canary: parse failed:", err)
